@@ -487,6 +487,13 @@ def check(ctx):
     with ctx.shared({"C06.R2": ("C03.R12", "a completed reload replaces the cache's old set entirely: the swap exchanges every piece of root state of both "
                                 "tables on every path (an address family that is empty in the new set ends up empty)")}):
         C06.r2(ctx)
+    from specs import C09
+    with ctx.shared({"C09.R4": ("C03.R13", "after the swap the difference is reported with the tables in their roles: the routine empties the table it is given "
+                                "second, which has to be the shadow object (now holding the old set) - handed the live table there, it would delete the "
+                                "records that were just committed"),
+                     "C10.R6": ("C03.R14", "the same for the router-key tables: spki_table_notify_diff(live table, shadow, own socket) after the swap")}):
+        C09.r4(ctx, retsets)
+        C10.r6_reload(ctx, retsets)
     ctx.not_decided("that the table contents equal previous + announcements - withdrawals (C02's set semantics composed with R1-R5)")
     ctx.not_decided("cancellation of the worker thread in the middle of the receive loop (covered by rtr_stop's purge, C07.R4)")
 
@@ -537,4 +544,8 @@ WITNESSES = [
      "new": "\t\trtr_send_error_pdu_from_host(rtr_socket, pdu, pdu_size, DUPLICATE_ANNOUNCEMENT, NULL, 0);\n\t\trtr_change_socket_state(rtr_socket, RTR_ERROR_FATAL);\n\t\treturn rtval;\n\t} else if (rtval == SPKI_RECORD_NOT_FOUND) {"},
     {"id": "C03.w16-ipv6-records-without-a-source", "rule": "C03.R5", "file": PK,
      "old": "\t\tpfxr->max_len = ipv6->max_prefix_len;\n\t\tpfxr->socket = rtr_socket;", "new": "\t\tpfxr->max_len = ipv6->max_prefix_len;"},
+    {"id": "C03.w-diff-with-the-tables-in-the-wrong-roles", "rule": "C03.R13", "file": PK,
+     "old": "pfx_table_notify_diff(rtr_socket->pfx_table, pfx_shadow_table, rtr_socket);", "new": "pfx_table_notify_diff(pfx_shadow_table, rtr_socket->pfx_table, rtr_socket);"},
+    {"id": "C03.w-key-diff-with-the-tables-in-the-wrong-roles", "rule": "C03.R14", "file": PK,
+     "old": "spki_table_notify_diff(rtr_socket->spki_table, spki_shadow_table, rtr_socket);", "new": "spki_table_notify_diff(spki_shadow_table, rtr_socket->spki_table, rtr_socket);"},
 ]
